@@ -134,11 +134,11 @@ func c36GenAF(t *rapid.T, label string, has bool, old *c36AF) *c36AF {
 		return nil
 	}
 	af := &c36AF{}
-	af.nhe = rapid.IntRange(0, 3).Draw(t, label+"_nhe") == 0
-	if rapid.IntRange(0, 9).Draw(t, label+"_addpath") < 6 {
+	af.nhe = rapid.IntRange(0, 3).Draw(t, label+"_nhe") == 3
+	if rapid.IntRange(0, 9).Draw(t, label+"_addpath") >= 4 {
 		af.hasAddPath = true
 		af.recv = rapid.Bool().Draw(t, label+"_recv")
-		if rapid.IntRange(0, 9).Draw(t, label+"_send") < 6 {
+		if rapid.IntRange(0, 9).Draw(t, label+"_send") >= 4 {
 			af.hasSend = true
 			af.multipath = rapid.Bool().Draw(t, label+"_multipath")
 			af.pathCount = rapid.SampledFrom(c36PathCounts).Draw(t, label+"_pathcount")
@@ -388,12 +388,12 @@ func c36GenPol(t *rapid.T, label, name string, old *c36Pol) c36Pol {
 	if old != nil {
 		for i := range old.terms {
 			l := fmt.Sprintf("%s_t%d", label, i)
-			if rapid.IntRange(0, 9).Draw(t, l+"_drop") == 0 {
+			if rapid.IntRange(0, 9).Draw(t, l+"_drop") == 9 {
 				continue
 			}
 			p.terms = append(p.terms, c36GenTerm(t, l, &old.terms[i]))
 		}
-		if rapid.IntRange(0, 9).Draw(t, label+"_addterm") == 0 {
+		if rapid.IntRange(0, 9).Draw(t, label+"_addterm") == 9 {
 			p.terms = append(p.terms, c36GenTerm(t, label+"_tnew", nil))
 		}
 		return p
@@ -415,10 +415,10 @@ func c36GenNbr(t *rapid.T, label string, old *c36Nbr, addr string, defined []str
 	}
 	n.s = c36GenSet(t, label, os, true, defined)
 	if !c36Keep(t, old != nil, label+"_mp") {
-		n.mp = rapid.IntRange(0, 3).Draw(t, label+"_mp") == 0
+		n.mp = rapid.IntRange(0, 3).Draw(t, label+"_mp") == 3
 	}
 	if !c36Keep(t, old != nil, label+"_disabled") {
-		n.disabled = rapid.IntRange(0, 7).Draw(t, label+"_disabled") == 0
+		n.disabled = rapid.IntRange(0, 7).Draw(t, label+"_disabled") == 7
 	}
 	return n
 }
@@ -441,7 +441,7 @@ func c36GenCfg(t *rapid.T, label string, base *c36Cfg) *c36Cfg {
 	seen := map[string]bool{}
 	for i := range b.pols {
 		l := fmt.Sprintf("%s_pol%d", label, i)
-		if rapid.IntRange(0, 9).Draw(t, l+"_drop") == 0 {
+		if rapid.IntRange(0, 9).Draw(t, l+"_drop") == 9 {
 			continue
 		}
 		c.pols = append(c.pols, c36GenPol(t, l, b.pols[i].name, &b.pols[i]))
@@ -450,7 +450,7 @@ func c36GenCfg(t *rapid.T, label string, base *c36Cfg) *c36Cfg {
 	nnew := 0
 	if !has {
 		nnew = rapid.IntRange(1, 3).Draw(t, label+"_npol")
-	} else if len(c.pols) == 0 || rapid.IntRange(0, 9).Draw(t, label+"_addpol") < 2 {
+	} else if len(c.pols) == 0 || rapid.IntRange(0, 9).Draw(t, label+"_addpol") >= 8 {
 		nnew = 1
 	}
 	for i := 0; i < nnew; i++ {
@@ -482,7 +482,7 @@ func c36GenCfg(t *rapid.T, label string, base *c36Cfg) *c36Cfg {
 			}
 		}
 		// rare: the same neighbour configured twice (the loader accepts it)
-		if len(free) == 0 || rapid.IntRange(0, 29).Draw(t, l+"_dup") == 0 {
+		if len(free) == 0 || rapid.IntRange(0, 29).Draw(t, l+"_dup") == 29 {
 			free = c36NbrAddrs
 		}
 		a := rapid.SampledFrom(free).Draw(t, l+"_addr")
@@ -499,7 +499,7 @@ func c36GenCfg(t *rapid.T, label string, base *c36Cfg) *c36Cfg {
 		if old != nil {
 			for i := range old.nbrs {
 				nl := fmt.Sprintf("%s_n%d", l, i)
-				if rapid.IntRange(0, 9).Draw(t, nl+"_drop") < 2 {
+				if rapid.IntRange(0, 9).Draw(t, nl+"_drop") >= 8 {
 					continue
 				}
 				used[old.nbrs[i].addr] = true
@@ -509,7 +509,7 @@ func c36GenCfg(t *rapid.T, label string, base *c36Cfg) *c36Cfg {
 		add := 0
 		if old == nil {
 			add = rapid.SampledFrom([]int{0, 1, 1, 2, 2, 3}).Draw(t, l+"_nnbr")
-		} else if rapid.IntRange(0, 9).Draw(t, l+"_addnbr") < 3 {
+		} else if rapid.IntRange(0, 9).Draw(t, l+"_addnbr") >= 7 {
 			add = 1
 		}
 		for i := 0; i < add; i++ {
@@ -534,7 +534,7 @@ func c36GenCfg(t *rapid.T, label string, base *c36Cfg) *c36Cfg {
 	// neighbours kept from base reserve their addresses first
 	for i := range b.grps {
 		l := fmt.Sprintf("%s_g%d", label, i)
-		if rapid.IntRange(0, 9).Draw(t, l+"_drop") == 0 {
+		if rapid.IntRange(0, 9).Draw(t, l+"_drop") == 9 {
 			continue
 		}
 		c.grps = append(c.grps, genGroup(l, &b.grps[i], b.grps[i].name))
@@ -542,7 +542,7 @@ func c36GenCfg(t *rapid.T, label string, base *c36Cfg) *c36Cfg {
 	ng := 0
 	if !has {
 		ng = rapid.SampledFrom([]int{1, 1, 2, 2, 3}).Draw(t, label+"_ngrp")
-	} else if rapid.IntRange(0, 9).Draw(t, label+"_addgrp") < 2 {
+	} else if rapid.IntRange(0, 9).Draw(t, label+"_addgrp") >= 8 {
 		ng = 1
 	}
 	for i := 0; i < ng; i++ {
